@@ -9,7 +9,7 @@ def run(ctx):
     L = T.Layer(ctx, fd=False)
     ctx.rule("R-SEG-CEIL", "packet count = ceil(len/7) in the quotient/remainder domain", floor=2)
     T.seg_ceil(ctx, L)
-    ctx.rule("R-SEG-CONST", "DT packets: offset 7*index, 7 data bytes, truncate or pad with 0xFF", floor=4)
+    ctx.rule("R-SEG-CONST", "DT packets: offset 7*index, 7 data bytes, truncate or pad with 0xFF", floor=2)
     ctx.rule("R-SEQ-BASE", "sequence byte = packet index + 1", floor=2)
     S.seg_const(ctx, L)
     ctx.rule("R-HASH-INJ", "session key is injective on (source, destination)", floor=1)
